@@ -132,8 +132,8 @@ theorem end_once (ops : List Op) (st : St) (h0 : ∀ d ∈ st.dts, PEnd d) :
     timer; with the timer armed at its cleanup point (as `Resume`/`TriggerDowntime` leave it) that means
     `now` is not past the end of a fixed or never-triggered downtime, nor past `trigger + duration` of
     a triggered flexible one. -/
-theorem expired_removed (st : St) (now : Int) :
-    ∀ d ∈ (pumpOp st now).dts, cleanupDue now d = false ∧
+theorem expired_removed (st : St) (now : Int) (f : Bool) :
+    ∀ d ∈ (pumpOp st now f).dts, cleanupDue now d = false ∧
       (d.removed = false → d.cleanup = some (cleanupPoint d) → now ≤ cleanupPoint d) := by
   intro d hd
   have h1 : cleanupDue now d = false := by
@@ -200,7 +200,7 @@ theorem paused_requests_nothing (now t : Int) (d : Dt) (hq : d.quiet = true) :
 
 /-- F-C05c: fixed downtime created before its window, non-OK result inside it before the start timer. -/
 def ceNeverStarted : List Op :=
-  [.result 0 1000 1000, .add ⟨1, true, 1010, 1020, 0, 0, false⟩ 1000, .result 2 1011 1011, .pump 1012,
+  [.result 0 1000 1000, .add ⟨1, true, 1010, 1020, 0, 0, false⟩ 1000, .result 2 1011 1011, .pump 1012 true,
    .remove 1 true 1017]
 
 /-- **started_counterexample.**  "A downtime that has taken effect has caused a DowntimeStart request"
@@ -284,7 +284,7 @@ theorem model_trace_meets_spec_partial (k : Kind) (ops : List Op) (hw : WF 990 o
 /-- A chained scenario: d1 fixed, d2 flexible chained to d1; the start timer at 1010 triggers both. -/
 def exampleOps : List Op :=
   [.result 0 1000 1000, .add ⟨1, true, 1010, 1020, 0, 0, false⟩ 1000, .add ⟨2, false, 1010, 1020, 3, 1, true⟩ 1000,
-   .pump 1010]
+   .pump 1010 true]
 
 example : ((run (initSt .host) exampleOps).dts.map (fun d => (d.id, d.trigger, d.starts, d.triggers))) =
     [(1, 1010, 1, [2]), (2, 1010, 1, [])] := by decide
@@ -300,14 +300,14 @@ example : ∃ d, findDt (run (initSt .host) (exampleOps.take 3)).dts 1 = some d 
 example : (removeOp (run (initSt .host) exampleOps) 2 true 1011).2 = 2 := by decide
 
 /-- `expired_removed` / `end_once`: after the pump at 1030 both downtimes are gone, each with one DowntimeEnd. -/
-example : ((run (initSt .host) (exampleOps ++ [.pump 1030])).dts.map (fun d => (d.removed, d.ends))) =
+example : ((run (initSt .host) (exampleOps ++ [.pump 1030 true])).dts.map (fun d => (d.removed, d.ends))) =
     [(true, 1), (true, 1)] := by decide
 
 /-- `start_once`: the chained scenario is well-formed, and at the (formerly failing) instant `now = end` the
     start timer no longer starts the fixed downtime again. -/
-example : WF 990 (exampleOps ++ [.pump 1020]) := by decide
+example : WF 990 (exampleOps ++ [.pump 1020 true]) := by decide
 
-example : ((run (initSt .host) (exampleOps ++ [.pump 1020])).dts.map (fun d => d.starts)) = [1, 1] := by decide
+example : ((run (initSt .host) (exampleOps ++ [.pump 1020 true])).dts.map (fun d => d.starts)) = [1, 1] := by decide
 
 /-- `flexible_trigger` (c): an untriggered flexible downtime inside its window exists before a non-OK result. -/
 example : ∃ d ∈ (run (initSt .service) [.result 0 1000 1000, .add ⟨1, false, 1000, 1020, 5, 0, false⟩ 1001]).dts,
@@ -321,7 +321,7 @@ example : specTrace (specInit .service)
 /-- … one whose trigger time changes … -/
 example : specTrace (specInit .service)
     [(.add ⟨1, true, 1000, 1020, 0, 0, false⟩ 1001, ⟨1, 1, true, [(1, 1001)], [(1, 1, 1), (3, 1, 1)]⟩),
-     (.pump 1002, ⟨0, 1, true, [(1, 1002)], []⟩)]
+     (.pump 1002 true, ⟨0, 1, true, [(1, 1002)], []⟩)]
     = some .triggerWriteOnce := by decide
 
 /-- The masked predicate of `model_trace_meets_spec_partial` is not vacuous either … -/
@@ -334,6 +334,6 @@ example : specTrace (specInit .service) (trace (initSt .service) ceNeverStarted)
     specTraceM coreMask (specInit .service) (trace (initSt .service) ceNeverStarted) = none := by decide
 
 /-- … and accepts the model's own trace of the chained scenario. -/
-example : specTrace (specInit .host) (trace (initSt .host) (exampleOps ++ [.pump 1030])) = none := by decide
+example : specTrace (specInit .host) (trace (initSt .host) (exampleOps ++ [.pump 1030 true])) = none := by decide
 
 end Icinga.C05
